@@ -13,6 +13,9 @@ CONFIG = {
     },
     'user_havoc': 'all',
     'protected_classes': ['plumpy.persistence.LoadSaveContext'],
+    # ghost: the saved-state mapping most recently produced by Savable.save() of an object
+    # INDEP: history flag of a Bundle: it was filled from a fresh deep copy of the saved state (set at construction)
+    'ghost_arrays': {'LASTSAVED': 'val', 'INDEP': 'bool'},
 }
 
 
@@ -201,3 +204,147 @@ def _ensure_object_loader(context, saved_state):
     ensures('is_context', isinstance(ret, LoadSaveContext) and ret.loader is not None or has_ctx or recorded)
     raises(ValueError, True)
     raises(Exception, not has_ctx and recorded)
+
+
+# ------------------------------------------------------------------------------------------------ persisters (C14)
+from plumpy.persistence import InMemoryPersister, PersistedCheckpoint, PicklePersister
+from plumpy.processes import Process
+
+
+@spec
+def wf_mem(p):
+    """class invariant of InMemoryPersister: pid -> (tag -> Bundle), both levels private dictionaries"""
+    return (is_dict(p._checkpoints) and dlen(p._checkpoints) >= 0 and owned(p._checkpoints)
+            and forall(lambda k: implies(dhas(p._checkpoints, k), is_dict(dget(p._checkpoints, k)) and owned(dget(p._checkpoints, k))
+                                         and dlen(dget(p._checkpoints, k)) >= 0 and dget(p._checkpoints, k) is not p._checkpoints))
+            and forall(lambda k, j: implies(dhas(p._checkpoints, k) and dhas(p._checkpoints, j) and k != j,
+                                            dget(p._checkpoints, k) is not dget(p._checkpoints, j))))
+
+
+@spec
+def mem_has(p, pid, tag):
+    """DESIGN D.5: (pid, tag) is in the domain of the abstract map M"""
+    return dhas(p._checkpoints, pid) and dhas(dget(p._checkpoints, pid), tag)
+
+
+@spec
+def mem_get(p, pid, tag):
+    return dget(dget(p._checkpoints, pid), tag)
+
+
+@contract('plumpy.persistence.InMemoryPersister.load_checkpoint', props=['C14'])
+def mem_load(self, pid, tag=None):
+    requires(wf_mem(self))
+    modifies()
+    ensures('returns_snapshot', mem_has(self, pid, tag) and ret is mem_get(self, pid, tag))
+    raises(KeyError, not mem_has(self, pid, tag))
+    replay('returns_snapshot', 'persister_history')
+    replay('raises_only_declared', 'persister_history')
+
+
+@contract('plumpy.persistence.InMemoryPersister.delete_checkpoint', props=['C14'], ghost=['P', 'T'])
+def mem_delete(self, pid, tag=None, P=None, T=None):
+    requires(wf_mem(self))
+    modifies(contents(dget(self._checkpoints, pid)))
+    raises_nothing()
+    ensures('removed', not mem_has(self, pid, tag))
+    ensures('only_its_key', implies(not (P == pid and T == tag), mem_has(self, P, T) == old(mem_has(self, P, T))
+                                    and implies(mem_has(self, P, T), mem_get(self, P, T) is old(mem_get(self, P, T)))))
+    ensures('invariant', wf_mem(self))
+    replay('removed', 'persister_history')
+    replay('only_its_key', 'persister_history')
+    replay('raises_nothing', 'persister_history')
+
+
+@contract('plumpy.persistence.InMemoryPersister.delete_process_checkpoints', props=['C14'], ghost=['P', 'T'])
+def mem_delete_process(self, pid, P=None, T=None):
+    requires(wf_mem(self))
+    modifies(contents(self._checkpoints))
+    raises_nothing()
+    ensures('all_tags_removed', not mem_has(self, pid, T))
+    ensures('only_that_process', implies(P != pid, mem_has(self, P, T) == old(mem_has(self, P, T))
+                                         and implies(mem_has(self, P, T), mem_get(self, P, T) is old(mem_get(self, P, T)))))
+    ensures('invariant', wf_mem(self))
+    replay('all_tags_removed', 'persister_history')
+    replay('only_that_process', 'persister_history')
+
+
+@contract('plumpy.persistence.InMemoryPersister.get_process_checkpoints', props=['C14'], ghost=['T'])
+def mem_list_process(self, pid, T=None):
+    requires(wf_mem(self))
+    modifies()
+    raises_nothing()
+    ensures('fresh_list', is_list(ret) and fresh(ret))
+    ensures('only_its_tags', forall(lambda e: implies(contains(seq(ret), e), attr(e, 'pid') is pid and mem_has(self, pid, attr(e, 'tag')))))
+    ensures('all_its_tags', implies(mem_has(self, pid, T), exists(lambda e: contains(seq(ret), e)
+                                                                  and attr(e, 'pid') is pid and attr(e, 'tag') is T)))
+    loop_modifies(0, contents(cps))
+    loop_invariant(0, 'acc', is_list(cps) and fresh(cps))
+    loop_invariant(0, 'allocated', forall(lambda e: implies(contains(seq(cps), e), is_ref(e) and allocated(e))))
+    loop_invariant(0, 'tags_sound', forall(lambda e: implies(contains(seq(cps), e), attr(e, 'pid') is pid and attr(e, 'tag') in _seen)))
+    loop_invariant(0, 'tags_complete', implies(T in _seen, exists(lambda e: contains(seq(cps), e)
+                                                                  and attr(e, 'pid') is pid and attr(e, 'tag') is T)))
+    replay('only_its_tags', 'persister_history')
+    replay('all_its_tags', 'persister_history')
+
+
+@contract('plumpy.persistence.InMemoryPersister.get_checkpoints', props=['C14'], ghost=['P', 'T'])
+def mem_list(self, P=None, T=None):
+    requires(wf_mem(self))
+    modifies()
+    raises_nothing()
+    ensures('fresh_list', is_list(ret) and fresh(ret))
+    ensures('only_stored_keys', forall(lambda e: implies(contains(seq(ret), e), mem_has(self, attr(e, 'pid'), attr(e, 'tag')))))
+    ensures('all_stored_keys', implies(mem_has(self, P, T), exists(lambda e: contains(seq(ret), e)
+                                                                 and attr(e, 'pid') is P and attr(e, 'tag') is T)))
+    loop_modifies(0, contents(cps))
+    loop_invariant(0, 'acc', is_list(cps) and fresh(cps))
+    loop_invariant(0, 'sound', forall(lambda e: implies(contains(seq(cps), e), mem_has(self, attr(e, 'pid'), attr(e, 'tag')))))
+    loop_invariant(0, 'complete', implies(P in _seen and mem_has(self, P, T), exists(lambda e: contains(seq(cps), e)
+                                                                                    and attr(e, 'pid') is P and attr(e, 'tag') is T)))
+    replay('only_stored_keys', 'persister_history')
+    replay('all_stored_keys', 'persister_history')
+
+
+@contract('plumpy.persistence.InMemoryPersister.save_checkpoint', props=['C14'], ghost=['P', 'T'])
+def mem_save(self, process, tag=None, P=None, T=None):
+    requires(wf_mem(self) and isinstance(process, Process))
+    modifies(all_heap)
+    ensures('stored', mem_has(self, process._pid, tag) and type_is(mem_get(self, process._pid, tag), Bundle)
+            and fresh(mem_get(self, process._pid, tag)))
+    ensures('only_its_key', implies(not (P == old(process._pid) and T == tag), mem_has(self, P, T) == old(mem_has(self, P, T))
+                                    and implies(mem_has(self, P, T), mem_get(self, P, T) is old(mem_get(self, P, T)))))
+    ensures('invariant', wf_mem(self))
+    ensures('snapshot_is_independent', ghost('INDEP', mem_get(self, process._pid, tag)))
+    raises(Exception, True)
+    replay('stored', 'persister_history')
+    replay('only_its_key', 'persister_history')
+    replay('snapshot_is_independent', 'persister_snapshot_independent')
+
+
+@contract('plumpy.persistence.Savable.save', assumed=True, dispatch='static')
+def savable_save(self, save_context=None):
+    """ASSUMED here (the member machinery is verified under C19): produces a fresh saved-state mapping; the ghost
+    LASTSAVED remembers it"""
+    modifies()
+    ghost_update('LASTSAVED', self, ret)
+    ensures(is_dict(ret) and fresh(ret) and dlen(ret) >= 0 and ghost('LASTSAVED', self) is ret)
+    raises(Exception, True)
+
+
+@spec
+def independent_snapshot(b, savable):
+    """b holds exactly the entries of a fresh deep copy of what savable.save() produced: no mutable object is shared with
+    the live object (copy.deepcopy's assumed contract)"""
+    return exists(lambda x: is_ref(x) and uf('copy_src', x) is ghost('LASTSAVED', savable) and x is not ghost('LASTSAVED', savable)
+                  and dict_arrays_equal(b, x))
+
+
+@contract('plumpy.persistence.Bundle.__init__', props=['C14'])
+def bundle_init(self, savable, save_context=None, dereference=False):
+    requires(type_is(self, Bundle) and dlen(self) == 0 and forall(lambda k: not dhas(self, k)))
+    requires(isinstance(savable, Savable))
+    modifies(contents(self))
+    ghost_update('INDEP', self, independent_snapshot(self, savable))   # history variable, fixed at construction
+    ensures('dereferenced_is_independent', implies(truthy(dereference), ghost('INDEP', self)))
+    raises(Exception, True)
